@@ -182,7 +182,8 @@ def runOp (op : String) (fields : List String) (impl : String) : Option Verdict 
         match impl.splitOn " ;; " with
         | _ :: traces =>
           if traces.length != r.1.length then []
-          else (r.1.zip traces).flatMap fun (st, tr) => WalkOracle.clauses st.dump tr
+          else (r.1.zip traces).flatMap fun (st, tr) =>
+            WalkOracle.clauses st.dump tr ++ (if (tr.splitOn " ").contains "PANIC" then ["c12-panic"] else [])
         | [] => []
     pure { model := fmtWalk s (if mask == "-" then "" else mask), oracle }
   | "COMPILE", [h, ps] => do
